@@ -316,7 +316,7 @@ Proof.
 Qed.
 
 (* non-vacuity: two sessions with the same message ids interleaved on one queue *)
-Definition nsc_cf_ex (k : Z) : ns_cfg := ns_mkcfg 1 1 true true.
+Definition nsc_cf_ex (k : Z) : ns_cfg := ns_mkcfg 1 1 true true true.
 Definition nsc_evs_ex : list (Z * ns_ev) :=
   [(0, NsSubmit (ns_mkmsg true 7 101)); (1, NsSubmit (ns_mkmsg true 7 201));
    (0, NsSubmit (ns_mkmsg true 8 102)); (1, NsSubmit (ns_mkmsg true 8 202));
